@@ -13,7 +13,9 @@ from vf.oracles import c01, c17, c16
 
 SEEDS = ['0', '1', '2', '3', '7', '42', '12345', 'random']
 ENVS = [{'LANG': 'C', 'LC_ALL': 'C'}, {'LANG': 'tr_TR.UTF-8', 'LC_ALL': 'tr_TR.UTF-8', 'TZ': 'Pacific/Kiritimati'},
-        {'HOME': '/nonexistent', 'COLUMNS': '20', 'PYTHONUTF8': '1', 'TERM': 'dumb'}]
+        {'HOME': '/nonexistent', 'COLUMNS': '20', 'PYTHONUTF8': '1', 'TERM': 'dumb'},
+        {'COLUMNS': '200', 'LINES': '60', 'TERM': 'xterm-256color', 'FORCE_COLOR': '1', 'CLICOLOR_FORCE': '1'},
+        {'COLUMNS': '1000', 'LINES': '5', 'NO_COLOR': '1', 'USER': 'nobody', 'TMPDIR': '/nonexistent'}]
 FORMATS = c16.FORMATS
 
 
